@@ -330,37 +330,51 @@ class C07(Prop):
                 out.append(rng.choice("0123456789"))
         return cps("".join(out))
 
+    def _lit_case(self, rng: random.Random, kind: str) -> Dict[str, Any]:
+        q = rng.choice(list(QUOTE))
+        raw = rng.random() < 0.3
+        mode = rng.random()
+        value = None
+        if mode < 0.45:          # encoding of a random value by the harness's encoder
+            value = self._rand_value(rng, kind)
+            body = encode_value(rng, value, kind, q, raw)
+            if body is None:
+                raw = False
+                body = encode_value(rng, value, kind, q, raw)
+        elif mode < 0.80:        # structured escape sequences, valid and near-miss
+            body = self._struct_body(rng)
+        else:                    # junk
+            body = []
+            for _ in range(rng.choice([0, 1, 2, 3, 5, 8])):
+                if rng.random() < 0.15:
+                    body += cps(rng.choice(self.MOTIFS))
+                else:
+                    body.append(self._rand_cp(rng, True))
+        c = {"kind": kind, "q": q, "raw": raw, "R": rng.random() < 0.3, "B": rng.random() < 0.3, "body": body, "via": None}
+        if value is not None:
+            c["value"] = value
+        return c
+
+    def search_cases(self, rng: random.Random) -> Iterable[Dict[str, Any]]:
+        """lazy stream for the failing-input search: the numeric cases of a quick run, then literal cases
+        through all three paths until the search's time budget ends"""
+        for c in self.generate(rng, "quick"):
+            if c["kind"] in ("int", "uint", "float"):
+                yield c
+        for _ in range(200000):
+            c = self._lit_case(rng, rng.choice(["str", "bytes"]))
+            for via in ("fn", "I", "C"):
+                yield dict(c, via=via)
+
     def generate(self, rng: random.Random, tier: str) -> Iterable[Dict[str, Any]]:
         quick = tier == "quick"
         cases: List[Dict[str, Any]] = []
         n_str = 1500 if quick else 60000
         for kind in ("str", "bytes"):
             for i in range(n_str):
-                q = rng.choice(list(QUOTE))
-                raw = rng.random() < 0.3
-                mode = rng.random()
-                value = None
-                if mode < 0.45:          # encoding of a random value by the harness's encoder
-                    value = self._rand_value(rng, kind)
-                    body = encode_value(rng, value, kind, q, raw)
-                    if body is None:
-                        raw = False
-                        body = encode_value(rng, value, kind, q, raw)
-                elif mode < 0.80:        # structured escape sequences, valid and near-miss
-                    body = self._struct_body(rng)
-                else:                    # junk
-                    body = []
-                    for _ in range(rng.choice([0, 1, 2, 3, 5, 8])):
-                        if rng.random() < 0.15:
-                            body += cps(rng.choice(self.MOTIFS))
-                        else:
-                            body.append(self._rand_cp(rng, True))
-                c = {"kind": kind, "q": q, "raw": raw, "R": rng.random() < 0.3, "B": rng.random() < 0.3, "body": body,
-                     "via": rng.choice(["fn", "I", "C"]) if quick else None}
-                if value is not None:
-                    c["value"] = value
+                c = self._lit_case(rng, kind)
                 if quick:
-                    cases.append(c)
+                    cases.append(dict(c, via=rng.choice(["fn", "I", "C"])))
                 else:
                     for via in ("fn", "I", "C"):
                         cases.append(dict(c, via=via))
